@@ -39,7 +39,7 @@ def _c02(tier):
         dict(name='cut-enumeration', leg='cuts', units=U(tier, 220), opts=dict(oracles=['C02'], ref_budget_cap=U(tier, 90, 200), profile=P(
             p_nsamples=0.6, p_noise=0.5, p_restarts=0.6, p_growing=0.0, maxfun_choices=[40, 60, 90, None], p_logging=0.9, p_buggify=0.6))),
         dict(name='swarm', leg='swarm', units=U(tier, 600), opts=dict(per_unit=8, oracles=['C02'], profile=P(
-            p_nsamples=0.6, p_noise=0.5, p_restarts=0.6, p_growing=0.03, maxfun_choices=BUDGETS_MIX, p_logging=0.9))),
+            p_nsamples=0.6, p_noise=0.5, p_restarts=0.6, p_growing=0.0, maxfun_choices=BUDGETS_MIX, p_logging=0.9))),
         dict(name='swarm-faulted', leg='swarm', units=U(tier, 200), opts=dict(per_unit=8, oracles=['C02'], salt='faulted', profile=P(
             p_nsamples=0.5, p_restarts=0.6, p_growing=0.0, p_faults=1.0, allow_raise=False, maxfun_choices=BUDGETS_BIG))),
     ]
@@ -50,7 +50,7 @@ def _c03(tier):
         dict(name='cut-enumeration', leg='cuts', units=U(tier, 160), opts=dict(oracles=['C03'], probes=('final',), ref_budget_cap=U(tier, 80, 160), profile=P(
             p_nsamples=0.4, p_noise=0.4, p_restarts=0.6, p_growing=0.0, maxfun_choices=[40, 60, 80, None], p_buggify=0.6))),
         dict(name='swarm', leg='swarm', units=U(tier, 700), opts=dict(per_unit=8, oracles=['C03'], probes=('final',), profile=P(
-            p_nsamples=0.4, p_noise=0.4, p_restarts=0.6, p_growing=0.02, maxfun_choices=BUDGETS_MIX, p_buggify=0.7, p_nanregion=0.15))),
+            p_nsamples=0.4, p_noise=0.4, p_restarts=0.6, p_growing=0.0, maxfun_choices=BUDGETS_MIX, p_buggify=0.7, p_nanregion=0.15))),
         dict(name='regularised', leg='swarm', units=U(tier, 100), opts=dict(per_unit=2, oracles=['C03'], probes=('final',), salt='reg', profile=P(
             p_reg=1.0, p_bounds=0.5, p_growing=0.0, p_restarts=0.3, maxfun_choices=[1, 2, 'npt', 15, 25, 40]))),
         dict(name='faulted', leg='swarm', units=U(tier, 200), opts=dict(per_unit=8, oracles=['C03'], probes=('final',), salt='faulted', profile=P(
@@ -63,13 +63,15 @@ def _c04(tier):
         dict(name='cut-enumeration', leg='cuts', units=U(tier, 160), opts=dict(oracles=['C04'], probes=('final',), ref_budget_cap=U(tier, 80, 160), profile=P(
             deterministic=True, p_restarts=0.6, p_growing=0.0, maxfun_choices=[40, 60, 80, None], p_buggify=0.6, p_nanregion=0.2))),
         dict(name='swarm', leg='swarm', units=U(tier, 700), opts=dict(per_unit=8, oracles=['C04'], probes=('final',), profile=P(
-            deterministic=True, p_restarts=0.6, p_growing=0.02, maxfun_choices=BUDGETS_MIX, p_buggify=0.7, p_nanregion=0.25, p_random_init=0.15))),
+            deterministic=True, p_restarts=0.6, p_growing=0.0, maxfun_choices=BUDGETS_MIX, p_buggify=0.7, p_nanregion=0.25, p_random_init=0.15))),
         dict(name='single-faults', leg='swarm', units=U(tier, 300), opts=dict(per_unit=8, oracles=['C04'], probes=('final',), salt='faulted', profile=P(
             deterministic=True, p_restarts=0.6, p_growing=0.0, p_faults=1.0, allow_raise=False, maxfun_choices=BUDGETS_BIG))),
         dict(name='convex', leg='swarm', units=U(tier, 100), opts=dict(per_unit=2, oracles=['C04'], probes=('final',), salt='convex', profile=P(
             deterministic=True, p_sets=1.0, p_restarts=0.4, p_growing=0.0))),
         dict(name='regularised', leg='swarm', units=U(tier, 60), opts=dict(per_unit=2, oracles=['C04'], probes=('final',), salt='reg', profile=P(
             deterministic=True, p_reg=1.0, p_bounds=0.5, p_restarts=0.3, p_growing=0.0))),
+        dict(name='growing', leg='swarm', units=U(tier, 40), opts=dict(per_unit=8, oracles=['C04'], probes=('final',), salt='growing', profile=P(
+            deterministic=True, p_growing=1.0, p_restarts=0.3, maxfun_choices=BUDGETS_BIG))),
     ]
 
 
@@ -78,7 +80,7 @@ def _c10(tier):
         dict(name='cut-enumeration', leg='cuts', units=U(tier, 160), opts=dict(oracles=['C10'], ref_budget_cap=U(tier, 80, 160), profile=P(
             p_nsamples=0.4, p_noise=0.4, p_restarts=0.7, p_growing=0.0, maxfun_choices=[40, 60, 80, None], p_buggify=0.8))),
         dict(name='swarm', leg='swarm', units=U(tier, 900), opts=dict(per_unit=8, oracles=['C10'], profile=P(
-            p_nsamples=0.4, p_noise=0.4, p_restarts=0.7, p_growing=0.02, maxfun_choices=BUDGETS_MIX, p_buggify=0.8))),
+            p_nsamples=0.4, p_noise=0.4, p_restarts=0.7, p_growing=0.0, maxfun_choices=BUDGETS_MIX, p_buggify=0.8))),
         dict(name='faulted', leg='swarm', units=U(tier, 250), opts=dict(per_unit=8, oracles=['C10'], salt='faulted', profile=P(
             p_restarts=0.6, p_growing=0.0, p_faults=1.0, allow_raise=False, maxfun_choices=BUDGETS_BIG))),
     ]
@@ -112,7 +114,7 @@ def _c20(tier):
     from . import oracles
     return [
         dict(name='swarm', leg='swarm', units=U(tier, 700), opts=dict(per_unit=8, oracles=['C20'], post=oracles.c20_field_fault_post, profile=P(
-            p_diag=0.5, p_restarts=0.6, p_growing=0.02, maxfun_choices=BUDGETS_MIX, p_buggify=0.7, p_nanregion=0.2))),
+            p_diag=0.5, p_restarts=0.6, p_growing=0.0, maxfun_choices=BUDGETS_MIX, p_buggify=0.7, p_nanregion=0.2))),
         dict(name='faulted', leg='swarm', units=U(tier, 400), opts=dict(per_unit=8, oracles=['C20'], salt='faulted', profile=P(
             p_diag=0.5, p_restarts=0.6, p_growing=0.0, p_faults=1.0, allow_raise=False, maxfun_choices=BUDGETS_BIG))),
         dict(name='convex-and-regularised', leg='swarm', units=U(tier, 60), opts=dict(per_unit=2, oracles=['C20'], salt='cr', profile=P(
@@ -125,7 +127,7 @@ def _c07(tier):
     return [
         dict(name='argument-fault-catalogue', leg=catalogue.leg_catalogue, units=len(catalogue.BASE_KINDS) * 8, opts=dict(chunks=8, oracles=['C07af'])),
         dict(name='exit-routes-swarm', leg='swarm', units=U(tier, 900), opts=dict(per_unit=8, oracles=['C07'], profile=P(
-            p_restarts=0.6, p_growing=0.03, maxfun_choices=BUDGETS_MIX, p_buggify=0.8, p_nanregion=0.15, p_nsamples=0.3))),
+            p_restarts=0.6, p_growing=0.0, maxfun_choices=BUDGETS_MIX, p_buggify=0.8, p_nanregion=0.15, p_nsamples=0.3))),
         dict(name='exit-routes-cuts', leg='cuts', units=U(tier, 60), opts=dict(oracles=['C07'], ref_budget_cap=U(tier, 70, 140), profile=P(
             p_restarts=0.6, p_growing=0.0, maxfun_choices=[40, 60, None], p_buggify=0.8))),
         dict(name='exit-routes-convex', leg='swarm', units=U(tier, 100), opts=dict(per_unit=2, oracles=['C07'], salt='convex', profile=P(
@@ -163,7 +165,7 @@ def _c19(tier):
         dict(name='sessions-regularised', leg=sessions.leg_sessions, units=U(tier, 40), opts=dict(per_unit=1, profile_over=dict(
             p_reg=1.0, p_bounds=0.5, p_restarts=0.3, maxfun_choices=[15, 25, 40]))),
         dict(name='caller-data-swarm', leg='swarm', units=U(tier, 500), opts=dict(per_unit=8, oracles=['C19'], profile=P(
-            p_faults=0.4, p_int_dtype=0.3, p_restarts=0.5, maxfun_choices=BUDGETS_MIX, p_growing=0.03))),
+            p_faults=0.4, p_int_dtype=0.3, p_restarts=0.5, maxfun_choices=BUDGETS_MIX, p_growing=0.0))),
         dict(name='caller-data-convex-regularised', leg='swarm', units=U(tier, 50), opts=dict(per_unit=2, oracles=['C19'], salt='cr', profile=P(
             p_sets=0.6, p_reg=0.5, p_faults=0.3, p_growing=0.0))),
     ]
@@ -207,7 +209,7 @@ def _c15(tier):
 def _c12(tier):
     return [
         dict(name='box-swarm', leg='swarm', units=U(tier, 800), opts=dict(per_unit=8, oracles=['insitu'], probes=('c12',), profile=P(
-            p_bounds=0.7, p_restarts=0.5, p_growing=0.02, maxfun_choices=BUDGETS_BIG, p_buggify=0.7))),
+            p_bounds=0.7, p_restarts=0.5, p_growing=0.0, maxfun_choices=BUDGETS_BIG, p_buggify=0.7))),
         dict(name='box-faulted', leg='swarm', units=U(tier, 300), opts=dict(per_unit=8, oracles=['insitu'], probes=('c12',), salt='faulted', profile=P(
             p_bounds=0.7, p_restarts=0.5, p_growing=0.0, p_faults=1.0, allow_raise=False, maxfun_choices=BUDGETS_BIG))),
         dict(name='box-cuts', leg='cuts', units=U(tier, 40), opts=dict(oracles=['insitu'], probes=('c12',), ref_budget_cap=U(tier, 80, 160), profile=P(
@@ -231,7 +233,8 @@ def _c13(tier):
 def _c14(tier):
     return [
         dict(name='bounded-prefix-swarm', leg='swarm', units=U(tier, 900), opts=dict(per_unit=8, oracles=['C14', 'insitu'], probes=('c14',), profile=P(
-            p_bounds=1.0, p_restarts=0.4, p_growing=0.0, p_random_init=0.0, p_faults=0.2, allow_raise=False, maxfun_choices=['npt', 'npt+1', 'npt+3', 25, 40], p_buggify=0.3))),
+            p_bounds=1.0, p_restarts=0.4, p_growing=0.0, p_random_init=0.0, p_faults=0.2, allow_raise=False, maxfun_choices=['npt', 'npt+1', 'npt+3', 25, 40], p_buggify=0.3,
+            p_far_from_origin=0.2))),
         dict(name='direction-generators', leg='swarm', units=U(tier, 500), opts=dict(per_unit=8, oracles=['insitu'], probes=('c14',), salt='dirs', profile=P(
             p_bounds=0.9, p_restarts=0.7, p_growing=0.15, p_random_init=0.5, p_increase_npt=0.6, p_momentum=0.6, p_regression=0.8, maxfun_choices=BUDGETS_BIG))),
     ]
